@@ -233,6 +233,33 @@ func HarnessC13MultipleOfValidators() {
 	verifReach("end")
 }
 
+// HarnessC13MultipleOfDecimal: multipleOf on decimal fractions with at most 6 fractional digits:
+// the verdict must be the one of exact arithmetic on the decimal values (here: on the numbers scaled
+// by 10^6), through the helper, schema validation and parameter validation.
+func HarnessC13MultipleOfDecimal() {
+	datas := []float64{0.29, 0.57, 4.35, 0.3, 1.1, 0.07, 19.99, 100.01, 0.000003, 7, 0.35}
+	dataScaled := []int64{290000, 570000, 4350000, 300000, 1100000, 70000, 19990000, 100010000, 3, 7000000, 350000}
+	factors := []float64{0.01, 0.1, 0.05, 0.000001, 2.5, 0.3, 0.07}
+	factorScaled := []int64{10000, 100000, 50000, 1, 2500000, 300000, 70000}
+	i, j := verifChoose(len(datas)), verifChoose(len(factors))
+	x, f := datas[i], factors[j]
+	if verifBool() {
+		x = -x
+	}
+	want := dataScaled[i]%factorScaled[j] == 0
+	verifObserve("x", x)
+	verifObserve("f", f)
+	verifAssert((MultipleOf("p", "q", x, f) == nil) == want, "multipleof-helper-is-exact-on-decimals")
+	s := spec.Schema{}
+	s.MultipleOf = &f
+	verifAssert(NewSchemaValidator(&s, nil, "", nil).Validate(x).IsValid() == want, "multipleof-schema-verdict-is-exact-on-decimals")
+	p := spec.QueryParam("q").Typed("number", "")
+	p.MultipleOf = &f
+	res := NewParamValidator(p, nil).Validate(x)
+	verifAssert((res == nil || res.IsValid()) == want, "multipleof-parameter-verdict-is-exact-on-decimals")
+	verifReach("end")
+}
+
 // HarnessC13JSONNumber: json.Number carriers give the verdict of the float64 carrying the same number.
 // Integer literals and fractional literals are picked values (finite-domain).
 func HarnessC13JSONNumber() {
